@@ -262,7 +262,7 @@ def install(ctx, repo, probes):
 
 def run_case(ctx, repo, case):
     mode = case["mode"]
-    repo.set_mode(mode)
+    repo.set_mode(mode, case)
     try:
         ds = [repo.dur(kw) for kw in case["durs"]]
         Dur = repo.Duration
